@@ -2,7 +2,7 @@ import PhyModel.Proofs.StoreCache_Path
 /-! C06, `Tree.add_data_point_to_node`: the clone's own `p` and `r` are multiplied in place (its own
 equation stays true because both sides are multiplied), its ancestors are recomputed from the
 parent up. -/
-namespace PhyModel.Store
+namespace PhyModel.Store.C06
 open PhyModel
 
 theorem recAt_some {s : Store} {i : Nat} {n : NodeRec} (h : s.recAt i = some n) :
@@ -79,4 +79,4 @@ theorem cacheOK_addDp (dt : Data) (s s' : Store) (dp : Nat) (node : Int) (hw : W
         rw [this, hm2]
         exact hpx
 
-end PhyModel.Store
+end PhyModel.Store.C06
